@@ -138,7 +138,15 @@ class TypeSet:
             self._walk(t["e"])
 
     def add(self, t):
+        """a top-level type; a type marked t["svc"] = "Request" is paired with the NEXT added type (marked "Response") into one service"""
         self._name(t)
+        if t.get("svc") == "Response" and self.tops and self.tops[-1].get("svc") == "Request" and "partner" not in self.tops[-1]:
+            req = self.tops[-1]
+            self.all.remove(t)
+            t["name"] = req["name"]
+            req["partner"] = t
+        elif t.get("svc") == "Response":
+            t.pop("svc")  # no request to pair with (batch boundary): an ordinary message
         self.tops.append(t)
         return t
 
@@ -176,8 +184,17 @@ class TypeSet:
         d = root / self.ns
         d.mkdir(parents=True, exist_ok=True)
         for t in self.all:
-            (d / ("%s.1.0.dsdl" % t["name"])).write_text(self.text(t))
+            if t.get("svc") == "Request" and "partner" not in t:
+                t.pop("svc")  # unpaired: an ordinary message
+            txt = self.text(t)
+            if t.get("svc") == "Request":
+                txt += "---\n" + self.text(t["partner"])
+            (d / ("%s.1.0.dsdl" % t["name"])).write_text(txt)
         return d
+
+    def files(self):
+        """composites that own a generated file (a service's response lives in its request's file)"""
+        return [t for t in self.all]
 
 
 def strip(t):
